@@ -20,6 +20,53 @@ import threading as _real_threading
 import time as _real_time
 
 
+_MON_TOOL = 3
+_ACTIVE = [None]          # the scheduler whose controlled threads receive INSTRUCTION events
+_mon_ready = [False]
+
+
+def _codes_of(modules):
+    """all code objects defined in the given modules (functions, methods, nested code)"""
+    import types
+    seen, out = set(), []
+
+    def add_code(c):
+        if id(c) in seen:
+            return
+        seen.add(id(c))
+        out.append(c)
+        for k in c.co_consts:
+            if isinstance(k, types.CodeType):
+                add_code(k)
+
+    def add_obj(o, modname):
+        if isinstance(o, types.FunctionType):
+            if o.__module__ == modname:
+                add_code(o.__code__)
+        elif isinstance(o, (staticmethod, classmethod)):
+            add_obj(o.__func__, modname)
+        elif isinstance(o, property):
+            for f in (o.fget, o.fset, o.fdel):
+                if f is not None:
+                    add_obj(f, modname)
+        elif isinstance(o, type) and o.__module__ == modname:
+            for v in vars(o).values():
+                add_obj(v, modname)
+    for m in modules:
+        for v in list(vars(m).values()):
+            add_obj(v, m.__name__)
+    return out
+
+
+def _on_instruction(code, offset):
+    s = _ACTIVE[0]
+    if s is None or _real_threading.get_ident() not in s._idents:
+        return
+    name = _dis.opname[code.co_code[offset]]
+    if name in Scheduler.VISIBLE:
+        s.point('op', (code.co_name, offset))
+
+
 class _Unwind(BaseException):
     """Raised inside controlled threads to take them down at the end of an execution."""
 
@@ -53,7 +100,7 @@ class _T:
 
 class Scheduler:
     def __init__(self, chooser, horizon=1e9, max_steps=20000, trace_filter=None,
-                 stall=False, line_points=True, opcode_points=False):
+                 stall=False, line_points=True, opcode_points=False, trace_modules=()):
         self.chooser = chooser
         self.threads = []
         self.current = None
@@ -68,12 +115,15 @@ class Scheduler:
         self.stall = stall
         self.line_points = line_points
         self.opcode_points = opcode_points
+        self.trace_modules = tuple(trace_modules)
+        self._idents = set()
         self.events = []                      # harness-visible log: (now, thread name, what...)
         self.errors = []                      # (thread name, exception repr)
         self.points = 0
         self.point_log = None                 # optional list of (thread, kind) per point
         self.shared_access = None
         self.extra = None
+        self.harness_error = None
         self.stalled = 0.0                # virtual time that passed through stall deviations
         self.slice = 150                  # fairness: max consecutive points of one thread while others are enabled
         self._streak = 0
@@ -101,10 +151,11 @@ class Scheduler:
 
     def _thread_main(self, t):
         t.baton.acquire()
+        self._idents.add(_real_threading.get_ident())
         try:
             if self.aborting:
                 raise _Unwind()
-            if self.trace_filter is not None and self.line_points:
+            if self.trace_filter is not None and self.line_points and not self.opcode_points:
                 sys.settrace(self._global_trace)
             try:
                 t.target(*t.args)
@@ -118,7 +169,16 @@ class Scheduler:
             t.exc = ex
             self.errors.append((t.name, '%s: %s' % (type(ex).__name__, ex)))
         finally:
-            self._thread_exit(t)
+            try:
+                self._thread_exit(t)
+            except BaseException:           # a bug of the harness (or a replay divergence): fail loudly, never hang
+                import traceback
+                self.harness_error = traceback.format_exc()
+                self.aborting = True
+                t.state = 'done'
+                for o in self.threads:
+                    o.baton.release()
+                self.finished.set()
 
     def _thread_exit(self, t):
         t.state = 'done'
@@ -152,8 +212,6 @@ class Scheduler:
         if hit is None:
             hit = bool(self.trace_filter(code))
             self._tracer_cache[code] = hit
-        if hit and self.opcode_points:
-            frame.f_trace_opcodes = True
         return self._local_trace if hit else None
 
     # bytecodes through which one thread can observe or affect another under the GIL; purely local
@@ -163,14 +221,6 @@ class Scheduler:
                          'CONTAINS_OP', 'GET_ITER', 'FOR_ITER'))
 
     def _local_trace(self, frame, event, arg):
-        if self.opcode_points:
-            if event == 'call':
-                frame.f_trace_opcodes = True
-            elif event == 'opcode':
-                name = _dis.opname[frame.f_code.co_code[frame.f_lasti]]
-                if name in self.VISIBLE:
-                    self.point('op', (frame.f_code.co_name, frame.f_lasti))
-            return self._local_trace
         if event == 'line':
             self.point('line', (frame.f_code.co_filename.rsplit('/', 1)[-1], frame.f_lineno))
         return self._local_trace
@@ -335,7 +385,30 @@ class Scheduler:
         return me.wake_reason
 
     # ------------------------------------------------------------ run
+    def _monitor(self, on):
+        """opcode mode: INSTRUCTION events (PEP 669) on the code objects of trace_modules that pass trace_filter.
+        (With sys.settrace the first execution of a function is not yet instrumented for opcode events, which
+        made replays diverge.)"""
+        mon = sys.monitoring
+        if not _mon_ready[0]:
+            mon.use_tool_id(_MON_TOOL, 'mc-vthreads')
+            mon.register_callback(_MON_TOOL, mon.events.INSTRUCTION, _on_instruction)
+            _mon_ready[0] = True
+        codes = [c for c in _codes_of(self.trace_modules) if self.trace_filter(c)]
+        for c in codes:
+            mon.set_local_events(_MON_TOOL, c, mon.events.INSTRUCTION if on else 0)
+        _ACTIVE[0] = self if on else None
+
     def run(self, main_fn, watchdog_s=30.0):
+        if self.opcode_points:
+            self._monitor(True)
+        try:
+            return self._run(main_fn, watchdog_s)
+        finally:
+            if self.opcode_points:
+                self._monitor(False)
+
+    def _run(self, main_fn, watchdog_s=30.0):
         main = self.spawn(main_fn, (), False, 'main')
         self.start_thread(main)
         self.current = main
@@ -349,6 +422,8 @@ class Scheduler:
         for t in self.threads:
             if t.os_thread is not None:
                 t.os_thread.join(2.0)
+        if self.harness_error:
+            raise RuntimeError('scheduler failure inside a controlled thread:\n' + self.harness_error)
         return self.verdict
 
 
